@@ -792,5 +792,5 @@ var fineByProfile = map[string][]string{
 	"c13": {"fin-vs-empty", "deliver-vs-empty", "touch-cap"},
 	"c02": {"deliver-vs-disconnect", "touch-then-scan", "touch-cap"},
 	"c04": {"touch-then-scan", "touch-cap"},
-	"c05": {"exit-vs-deliver", "exit-vs-req", "exit-vs-timeout-scan", "exit-vs-deferred-scan", "deliver-vs-disconnect", "exit-vs-pub"},
+	"c05": {"exit-vs-deliver", "exit-vs-req", "exit-vs-timeout-scan", "exit-vs-deferred-scan", "deliver-vs-disconnect"},
 }
